@@ -161,47 +161,79 @@ Proof.
   apply Nat.ltb_lt in Hn. rewrite Hn. reflexivity.
 Qed.
 
+Lemma local_nranks s path f : wf_st s -> nranks (fst (local s path f)) = nranks s.
+Proof.
+  intros Hs. unfold local. destruct (path_ok path (root_es s)); [|reflexivity].
+  destruct (at_path path f O (root_es s)); [|reflexivity]. cbn [fst].
+  destruct Hs as (id & ow & es & Hr & _). unfold with_root. rewrite Hr. reflexivity.
+Qed.
+
+Lemma at_path_st_nranks s path f r :
+  wf_st s ->
+  (forall lvl e nx rk, length (snd (f lvl e nx rk)) = length rk) ->
+  at_path_st path f O (root_es s) (s_next s) (s_ranks s) = Some r ->
+  nranks (with_root s (fst (fst r)) (snd (fst r)) (snd r)) = nranks s.
+Proof.
+  intros Hs Hlen Hat.
+  pose proof (at_path_st_rk_length f Hlen _ _ _ _ _ _ Hat) as Hl.
+  destruct Hs as (id & ow & es & Hr & _). unfold with_root. rewrite Hr. unfold nranks. exact Hl.
+Qed.
+
 Lemma step_nranks s o : wf_st s -> nranks (fst (Store.step s o)) = nranks s.
 Proof.
-  (* the invariant carries the rank count: both states satisfy wf_st with their own count;
-     equality of the counts follows from the length lemmas used in step_wf *)
-  intros Hs. destruct o; cbn [Store.step];
-  repeat match goal with
-         | |- context [if ?b then _ else _] => destruct b
-         | |- context [match fiber_at ?p ?e with Some _ => _ | None => _ end] => destruct (fiber_at p e)
-         end; try reflexivity.
-  - pose proof (get_ref_rk_length (nranks s) (s_d s) w pt O (root_es s) (s_next s) (s_ranks s)) as H2.
+  intros Hs. destruct o; cbn [Store.step].
+  - destruct (Nat.leb (length pt) (nranks s) && negb (Nat.eqb (length pt) 0)); [|reflexivity].
+    pose proof (get_ref_rk_length (nranks s) (s_d s) w pt O (root_es s) (s_next s) (s_ranks s)) as H2.
     destruct (get_ref (nranks s) (s_d s) w O pt (root_es s) (s_next s) (s_ranks s))
       as [[[es' nx] rk] r]. cbn [fst snd] in *.
     destruct Hs as (id & ow & es & Hr & _). unfold with_root. rewrite Hr. unfold nranks. exact H2.
-  - unfold local. destruct (path_ok path (root_es s)); [|reflexivity].
-    destruct (at_path path _ O (root_es s)); [|reflexivity]. cbn [fst].
-    destruct Hs as (id & ow & es & Hr & _). unfold with_root. rewrite Hr. reflexivity.
-  - unfold local. destruct (path_ok path (root_es s)); [|reflexivity].
-    destruct (at_path path _ O (root_es s)); [|reflexivity]. cbn [fst].
-    destruct Hs as (id & ow & es & Hr & _). unfold with_root. rewrite Hr. reflexivity.
-  - unfold local. destruct (path_ok path (root_es s)); [|reflexivity].
-    destruct (at_path path _ O (root_es s)); cbn [fst snd]; [|reflexivity].
-    destruct Hs as (id & ow & es & Hr & _). unfold with_root. rewrite Hr.
-    unfold nranks. cbn [s_ranks]. apply map_length.
-  - unfold local. destruct (path_ok path (root_es s)); [|reflexivity].
-    destruct (at_path path _ O (root_es s)); [|reflexivity]. cbn [fst].
-    destruct Hs as (id & ow & es & Hr & _). unfold with_root. rewrite Hr. reflexivity.
-  - unfold local. destruct (path_ok path (root_es s)); [|reflexivity].
-    destruct (at_path path _ O (root_es s)); [|reflexivity]. cbn [fst].
-    destruct Hs as (id & ow & es & Hr & _). unfold with_root. rewrite Hr. reflexivity.
-  - destruct (at_path_st path _ O (root_es s) (s_next s) (s_ranks s)) as [[[es' nx] rk]|] eqn:Hat;
+  - destruct (Nat.leb (length pt) (nranks s) && negb (Nat.eqb (length pt) 0)); reflexivity.
+  - destruct (Nat.eqb (S (length path)) (nranks s)); [|reflexivity]. apply local_nranks. exact Hs.
+  - destruct (Nat.eqb (S (length path)) (nranks s)
+              || Nat.ltb (length path) (nranks s) && match ov with None => true | Some _ => false end);
+      [|reflexivity]. apply local_nranks. exact Hs.
+  - destruct (Nat.ltb (length path) (nranks s)); [|reflexivity].
+    destruct (fiber_at path (root_es s)) as [es|]; [|reflexivity].
+    pose proof (local_nranks s path (fun _ => do_clear) Hs) as Hl.
+    destruct (local s path (fun _ : nat => do_clear)) as [s' out]. cbn [fst] in *.
+    destruct out; cbn [fst]; try exact Hl.
+    unfold nranks in *. cbn [s_ranks]. rewrite map_length. exact Hl.
+  - destruct (Nat.ltb (length path + depth) (nranks s) && ((sg =? 1) || (sg =? -1))); [|reflexivity].
+    apply local_nranks. exact Hs.
+  - destruct (Nat.ltb (length path + depth) (nranks s)); [|reflexivity].
+    destruct (fiber_at path (root_es s)) as [es0|]; [|reflexivity].
+    destruct (distinct_below depth (tbl_fn tbl off) es0); [|reflexivity].
+    apply local_nranks. exact Hs.
+  - destruct (Nat.eqb (S (length path + depth)) (nranks s)); [|reflexivity].
+    apply local_nranks. exact Hs.
+  - destruct (Nat.ltb (length path) (nranks s) && (0 <? step) && (0 <=? lo)); [|reflexivity].
+    destruct (at_path_st path _ O (root_es s) (s_next s) (s_ranks s)) as [[[es' nx] rk]|] eqn:Hat;
       [|reflexivity]. cbn [fst].
-    pose proof (at_path_st_rk_length _ (fun lvl e nx0 rk0 => shape_ref_rk_length (nranks s) (s_d s) _ lvl e nx0 rk0) _ _ _ _ _ _ Hat) as Hl.
-    destruct Hs as (id & ow & es & Hr & _). unfold with_root. rewrite Hr. unfold nranks. exact Hl.
-  - destruct (at_path_st path _ O (root_es s) (s_next s) (s_ranks s)) as [[[es' nx] rk]|] eqn:Hat;
+    refine (at_path_st_nranks s path _ (es', nx, rk) Hs _ Hat).
+    intros lvl e nx0 rk0. apply shape_ref_rk_length.
+  - destruct (Nat.ltb (length path) (nranks s)); [|reflexivity].
+    destruct (fiber_at path (root_es s)) as [es|]; [|reflexivity].
+    destruct (sp_in_range (norm_sp sp es) es); reflexivity.
+  - destruct (Nat.ltb (length path) (nranks s)); [|reflexivity].
+    destruct (fiber_at path (root_es s)) as [es|]; [|reflexivity].
+    destruct (sp_in_range (norm_sp sp es) es); [|reflexivity].
+    destruct (coord_exists c (map fst es) (coord2pos c (map fst es) (norm_sp sp es))
+              || negb (coord_exists c (map fst es) (bisect c (map fst es)))); [|reflexivity].
+    destruct (at_path_st path _ O (root_es s) (s_next s) (s_ranks s)) as [[[es' nx] rk]|] eqn:Hat;
       [|reflexivity]. cbn [fst].
-    pose proof (at_path_st_rk_length _ (get_ref_single_len (nranks s) (s_d s) WNone c) _ _ _ _ _ _ Hat) as Hl.
-    destruct Hs as (id & ow & es & Hr & _). unfold with_root. rewrite Hr. unfold nranks. exact Hl.
-  - destruct (at_path_st path _ O (root_es s) (s_next s) (s_ranks s)) as [[[es' nx] rk]|] eqn:Hat;
+    refine (at_path_st_nranks s path _ (es', nx, rk) Hs _ Hat). apply get_ref_single_len.
+  - destruct (Nat.ltb (length path) (nranks s)); [|reflexivity].
+    destruct (fiber_at path (root_es s)) as [es|]; [|reflexivity].
+    destruct (sp_in_range (norm_sp sp es) es); [|reflexivity].
+    destruct (sp_assert c (norm_sp sp es) es); reflexivity.
+  - destruct (Nat.ltb (length path) (nranks s)); [|reflexivity].
+    destruct (fiber_at path (root_es s)) as [es|]; [|reflexivity].
+    destruct (sp_in_range (norm_sp sp es) es); [|reflexivity].
+    destruct (coord_exists c (map fst es) (coord2pos c (map fst es) (norm_sp sp es))
+              || negb (coord_exists c (map fst es) (bisect c (map fst es)))); [|reflexivity].
+    destruct (at_path_st path _ O (root_es s) (s_next s) (s_ranks s)) as [[[es' nx] rk]|] eqn:Hat;
       [|reflexivity]. cbn [fst].
-    pose proof (at_path_st_rk_length _ (get_ref_single_len (nranks s) (s_d s) w c) _ _ _ _ _ _ Hat) as Hl.
-    destruct Hs as (id & ow & es & Hr & _). unfold with_root. rewrite Hr. unfold nranks. exact Hl.
+    refine (at_path_st_nranks s path _ (es', nx, rk) Hs _ Hat). apply get_ref_single_len.
 Qed.
 
 Lemma outcome_code_V o :
